@@ -8,6 +8,7 @@
 -/
 import Stfs.Proofs.Like
 import Stfs.Model.Trig
+import Stfs.Proofs.Spelling
 namespace Stfs.C12
 open Stfs
 
@@ -63,5 +64,92 @@ theorem F07_witness :
     let s := ({} : Sys).runAll {} [(env1 1, .init (n!"/") 511), (env1 2, .mkdir (n!"/s") 493), (env1 3, .mkdir (n!"/s/x") 493)]
     (match (s.step {} { now := 4, recs := [(3, 0), (3, 0)] } (.rename (n!"/s") (n!"/s/t"))).2 with | .ok _ => true | .error _ => false) = true := by
   decide
+
+/-- the name a `Move` record carries for the entry `n` when `from_` is renamed to `to` -/
+def movedName (from_ to n : Name) : Name :=
+  pjoin [to, trimPrefix (trimPrefix n [slash]) (trimPrefix from_ [slash])]
+
+/-- (5) Rename arithmetic: when the directory `/F` is renamed to `/T`, the record written for the
+    descendant `/F/R` carries the name `/T/R`, and the one for `/F` itself carries `/T` — for
+    all plain component lists F, T, R (any depth, any characters but `/`, no `.`/`..`
+    components).  Everything else keeps its name because only these rows are selected
+    (`children_exact_partial`). -/
+theorem rename_maps_descendants (cf ct cr : List Name) (hf : cf ≠ []) (ht : ct ≠ []) (hr : cr ≠ [])
+    (pf : Plain cf) (pt : Plain ct) (pr : Plain cr) :
+    movedName (slash :: joinWith slash cf) (slash :: joinWith slash ct)
+        (slash :: (joinWith slash cf ++ slash :: joinWith slash cr)) =
+      slash :: (joinWith slash ct ++ slash :: joinWith slash cr) ∧
+    movedName (slash :: joinWith slash cf) (slash :: joinWith slash ct) (slash :: joinWith slash cf) =
+      slash :: joinWith slash ct := by
+  have tp : ∀ x : Name, trimPrefix (slash :: x) [slash] = x := by
+    intro x; simp [trimPrefix, hasPrefix]
+  have tne : (slash :: joinWith slash ct) ≠ [] := by simp
+  constructor
+  · -- a descendant
+    unfold movedName
+    rw [tp, tp, trimPrefix_append]
+    unfold pjoin
+    have hall : ([slash :: joinWith slash ct, slash :: joinWith slash cr].all (· == [])) = false := by simp
+    simp only [hall, Bool.false_eq_true, if_false]
+    have jb : joinBuf [] [slash :: joinWith slash ct, slash :: joinWith slash cr] =
+        slash :: joinWith slash (ct ++ [[]] ++ cr) := by
+      have e1 : ((slash :: joinWith slash ct) != []) = true := by simp
+      simp only [joinBuf, e1, if_true, bne_self_eq_false, Bool.false_eq_true, if_false]
+      rw [joinWith_append slash (ct ++ [[]]) cr (by simp) hr, joinWith_append slash ct [[]] ht (by simp)]
+      simp [joinWith, List.append_assoc]
+    rw [jb]
+    have semi : Semi (ct ++ [[]] ++ cr) := by
+      intro c hc
+      simp only [List.mem_append, List.mem_singleton] at hc
+      rcases hc with (hc | hc) | hc
+      · exact Or.inr (pt c hc)
+      · exact Or.inl hc
+      · exact Or.inr (pr c hc)
+    rw [clean_abs_semi _ (by simp) semi]
+    have filt : (ct ++ [[]] ++ cr).filter (fun c => c != []) = ct ++ cr := by
+      have f1 : ∀ l : List Name, Plain l → l.filter (fun c => c != []) = l := by
+        intro l hl
+        apply List.filter_eq_self.mpr
+        intro c hc
+        simp [bne, (hl c hc).1]
+      simp [List.filter_append, f1 ct pt, f1 cr pr]
+    rw [filt, joinWith_append slash ct cr ht hr]
+  · -- the directory itself
+    unfold movedName
+    rw [tp]
+    have e : trimPrefix (joinWith slash cf) (joinWith slash cf) = [] := by
+      have := trimPrefix_append (joinWith slash cf) []
+      simpa using this
+    rw [e]
+    unfold pjoin
+    have hall : ([slash :: joinWith slash ct, ([] : Name)].all (· == [])) = false := by simp
+    simp only [hall, Bool.false_eq_true, if_false]
+    have jb : joinBuf [] [slash :: joinWith slash ct, []] = slash :: joinWith slash (ct ++ [[]]) := by
+      have e1 : ((slash :: joinWith slash ct) != []) = true := by simp
+      simp only [joinBuf, e1, if_true, bne_self_eq_false, Bool.false_eq_true, if_false]
+      rw [joinWith_append slash ct [[]] ht (by simp)]
+      simp [joinWith]
+    rw [jb]
+    have semi : Semi (ct ++ [[]]) := by
+      intro c hc
+      simp only [List.mem_append, List.mem_singleton] at hc
+      rcases hc with hc | hc
+      · exact Or.inr (pt c hc)
+      · exact Or.inl hc
+    rw [clean_abs_semi _ (by simp) semi]
+    have filt : (ct ++ [[]]).filter (fun c => c != []) = ct := by
+      have f1 : ct.filter (fun c => c != []) = ct := by
+        apply List.filter_eq_self.mpr
+        intro c hc
+        simp [bne, (pt c hc).1]
+      simp [List.filter_append, f1]
+    rw [filt]
+
+/-- `movedName` is the expression the model of `Move` (and, by the correspondence, the code) uses -/
+theorem moveItems_names (from_ to : Name) (rows : List Row) (env : EnvRecs) :
+    (moveItems from_ to rows env).1.map (·.name) = rows.map (fun r => movedName from_ to r.name) := by
+  simp [moveItems, movedName, Row.toHdr]
+
+example : movedName (n!"/a/b") (n!"/x") (n!"/a/b/c/d") = (n!"/x/c/d") := by decide
 
 end Stfs.C12
